@@ -31,6 +31,10 @@ def check(ctx):
     # a customer holding a server must not be taken out of the node by the renege scan (shared instance)
     from . import c13
     c13.renege_scan(ctx, P)
+    # priority pre-emption hands the victim's server to the newcomer: the victim must be the customer of a server on duty (taken from self.servers, not from
+    # the customers' own `server` links, which an interrupted customer keeps after its server has gone) -- shared instance, C11
+    from . import c11
+    c11.victim(ctx, P, views)
     ctx.assume("custom server_priority_function / service disciplines return an element of their argument")
 
 
